@@ -44,9 +44,16 @@ func fcReplay0(b *fcBeh) string {
 	}
 	layer.Weight, layer.Bias = fcW(0), fcB(0)
 	x, _ := bind.New([]int{2, 2}, []float64{1, -2, 0.5, 3}, false)
-	var first, last []layers.Weight
+	x3, _ := bind.New([]int{1, 2, 2}, []float64{1, -2, 0.5, 3}, false) // rank 3: outside Forward's precondition (rank 2)
+	var first, last, raw []layers.Weight
+	bad := ""
 	get := func() {
-		last = layer.Weights()
+		raw = layer.Weights() // the returned list itself (the caller may overwrite it)
+		if len(raw) != 2 || raw[0].Value == nil || raw[1].Value == nil {
+			bad = fmt.Sprintf("Weights() returned %d entries / nil pointers", len(raw))
+			return
+		}
+		last = append([]layers.Weight{}, raw...) // the pointers, kept separately
 		if first == nil {
 			first = last
 		}
@@ -56,6 +63,20 @@ func fcReplay0(b *fcBeh) string {
 		switch a[0].(string) {
 		case "weights":
 			get()
+			if bad != "" {
+				return fmt.Sprintf("action %d: %s", i, bad)
+			}
+		case "scribble":
+			if raw == nil {
+				get()
+			}
+			for k := range raw {
+				raw[k] = layers.Weight{}
+			}
+		case "badforward":
+			if r, err := layer.Forward(x3); err == nil || r != nil {
+				return fmt.Sprintf("action %d: Forward accepted an input of rank 3: %v", i, err)
+			}
 		case "setW", "setB":
 			v := int(a[1].(float64))
 			idx, nt := 0, fcW(v)
@@ -73,10 +94,16 @@ func fcReplay0(b *fcBeh) string {
 				if first == nil {
 					get()
 				}
+				if bad != "" {
+					return fmt.Sprintf("action %d: %s", i, bad)
+				}
 				*first[idx].Value = nt
 			case "last":
 				if last == nil {
 					get()
+				}
+				if bad != "" {
+					return fmt.Sprintf("action %d: %s", i, bad)
 				}
 				*last[idx].Value = nt
 			}
